@@ -132,7 +132,10 @@ def fun_cases(B, recs, rep, stats):
             stats['skipped'] += 1
             continue
         if name != 'powz':
-            groups.setdefault(name, []).append((v, want, max(abs(p1), abs(p2), 1.0) * max(1.0, 1.0 / max(abs(x0), 0.25))))
+            gscale = max(abs(p1), abs(p2), 1.0) * max(1.0, 1.0 / max(abs(x0), 0.25))
+            if r.get('rel'):
+                gscale = max(abs(p1), abs(p2)) * (max(1.0, 3e-3 / abs(x0)) if name in ('log1p', 'arcsinh') else 1.0)
+            groups.setdefault(name, []).append((v, want, gscale))
         for shape in (None, (3,)):
             try:
                 with np.errstate(all='ignore'):
@@ -145,6 +148,13 @@ def fun_cases(B, recs, rep, stats):
             mag = max(abs(p1), abs(p2), 1.0)       # absolute floor eps: the argument itself is rounded
             # rounding of the two idempotent evaluations, amplified by the conditioning of f near x0
             tol = 1e4 * EPS * mag * max(1.0, 1.0 / max(abs(x0), 0.25))
+            if r.get('rel'):
+                # tiny base point, perturbation relative to it: everything scales with |f| itself - no absolute floor
+                tol = 1e4 * EPS * max(abs(p1), abs(p2))
+                if name in ('log1p', 'arcsinh'):
+                    # observed on the unchanged tree: numpy's COMPLEX log1p, and arcsinh = log(z + sqrt(z^2 + 1)), lose eps/|x|
+                    # relative accuracy near 0 (4e-9 at x = 7e-9): only errors well beyond that level are reported for these two
+                    tol = max(tol, 30 * EPS / abs(x0) * max(abs(p1), abs(p2)))
             bad = np.abs(g - want[:, None]).max()
             stats['max_fun_ratio'] = max(stats['max_fun_ratio'], bad / tol)
             if not bad <= tol:
